@@ -191,7 +191,7 @@ func (i *interpreter) noteWrite(r *memRange, fr *frame) {
 	if !wh && !r.harness {
 		ps.libStaticWrites++
 	}
-	if len(ps.staticWrites) < 16 {
+	if len(ps.staticWrites) < 64 {
 		ps.staticWrites = append(ps.staticWrites, staticWrite{r.owner, r.harness, name, wh, site})
 	}
 }
